@@ -11,7 +11,7 @@ import checks_codec as cc
 
 
 def c01(tier, seed):
-    return cc.codec_check('C01', tier, seed, ['ber', 'der'], ['RT'], ['enc', 'dec', 're'])
+    return cc.codec_check('C01', tier, seed, ['ber', 'der', 'per', 'uper'], ['RT'], ['enc', 'dec', 're'])
 
 
 def c03(tier, seed):
@@ -19,14 +19,18 @@ def c03(tier, seed):
 
 
 def c16(tier, seed):
-    return cc.codec_check('C16', tier, seed, ['ber', 'der'], ['PREFIX'], ['enc', 'pre'], numerics='0')
+    return cc.codec_check('C16', tier, seed, ['ber', 'der', 'per', 'uper'], ['PREFIX'], ['enc', 'pre'], numerics='0')
 
 
 def c05(tier, seed):
     return cc.codec_check('C05', tier, seed, ['per', 'uper'], ['PER'], ['enc', 'dec'], numerics='0')
 
 
-CHECKS = {'C05': c05, 'C01': c01, 'C03': c03, 'C16': c16}
+def c06(tier, seed):
+    return cc.codec_check('C06', tier, seed, ['oer'], ['OER'], ['enc', 'dec'], numerics='0')
+
+
+CHECKS = {'C06': c06, 'C05': c05, 'C01': c01, 'C03': c03, 'C16': c16}
 
 
 def setup():
